@@ -461,7 +461,7 @@ func main() {
 		"miekg/dns Pack/Unpack define wire validity (the real server uses the same parser); bytes miekg cannot represent (compression pointers in questions, trailing garbage, TSIG) are outside the space",
 		"the package's random source is replaced by a deterministic one that never draws 0 and maxAnswer is 200, so the content of a reply is a function of the query; record order inside a section is not compared",
 		"response cache disabled (C12 covers it); handler configuration otherwise default (AlwaysCompress off)",
-		"a reply larger than the client's limit WITH TC set satisfies the statement as written (counted in replies_tc_set_but_still_over_limit)",
+		"a UDP reply larger than the client's limit WITH TC set is reported under its own kind (size/udp-over-limit-despite-tc): 'truncated' is read as 'cut down to the size'; size/udp is the literal reading (over the limit and TC clear)",
 		"question section equality is exact (name bytes, type, class, count)",
 	}
 	r.Finish()
